@@ -50,15 +50,12 @@ Section RoundTrip.
   Hypothesis fmt_clean : forall z, escape (fmt z) = fmt z.
   Hypothesis parse_fmt : forall z, parse (fmt z) = Some (Some z).
 
-  Lemma doc_elems_footer : forall wk last, doc_elems parse footer_events wk last = Some [].
-  Proof. reflexivity. Qed.
-
   Lemma doc_elems_edges : forall es tail wk,
     wk = s_weight ->
     forall last,
-    (es = [] -> doc_elems parse tail wk last = Some []) ->
-    doc_elems parse tail wk LEdge = Some [] ->
-    doc_elems parse (flat_map (edge_events fmt) es ++ tail) wk last = Some (flat_map elems_of_edge es).
+    (es = [] -> doc_elems parse tail wk last false = Some []) ->
+    doc_elems parse tail wk LEdge false = Some [] ->
+    doc_elems parse (flat_map (edge_events fmt) es ++ tail) wk last false = Some (flat_map elems_of_edge es).
   Proof.
     intros es tail wk Hwk. subst wk.
     induction es as [|e es IH]; intros last Hnil Htail.
@@ -67,7 +64,7 @@ Section RoundTrip.
       cbn [doc_elems]. change (bytes_eqb s_edge s_graph) with false. change (bytes_eqb s_edge s_node) with false.
       change (bytes_eqb s_edge s_edge) with true. cbn iota.
       rewrite edge_ends_written.
-      assert (Hrest : doc_elems parse (EvEnd s_edge :: flat_map (edge_events fmt) es ++ tail) s_weight LEdge
+      assert (Hrest : doc_elems parse (EvEnd s_edge :: flat_map (edge_events fmt) es ++ tail) s_weight LEdge false
                       = Some (flat_map elems_of_edge es)).
       { cbn [doc_elems]. apply IH; [intros _; exact Htail|exact Htail]. }
       unfold elems_of_edge at 1. destruct (ew e) as [z|]; cbn [weight_events app].
@@ -76,13 +73,13 @@ Section RoundTrip.
         change (bytes_eqb s_data s_edge) with false. change (bytes_eqb s_data s_key) with false.
         change (bytes_eqb s_data s_data) with true. cbn iota.
         rewrite data_written. rewrite fmt_clean, parse_fmt.
-        cbn [doc_elems] in Hrest. cbn [doc_elems]. rewrite Hrest. reflexivity.
+        cbn [doc_elems] in Hrest. rewrite Hrest. reflexivity.
       + rewrite Hrest. reflexivity.
   Qed.
 
   Lemma doc_elems_nodes : forall (ns : list gnode) tail wk last els,
-    doc_elems parse tail wk last = Some els ->
-    doc_elems parse (flat_map node_events ns ++ tail) wk last =
+    doc_elems parse tail wk last false = Some els ->
+    doc_elems parse (flat_map node_events ns ++ tail) wk last false =
     Some (map (fun n => ElNode (nname n)) ns ++ els).
   Proof.
     induction ns as [|n ns IH]; intros tail wk last els Htail.
@@ -93,7 +90,7 @@ Section RoundTrip.
   Qed.
 
   Lemma doc_elems_written : forall d (ns : list gnode) (es : list gedge),
-    doc_elems parse (write_elements fmt d ns es) s_weight LNone =
+    doc_elems parse (write_elements fmt d ns es) s_weight LNone false =
     Some (ElDirected d :: map (fun n => ElNode (nname n)) ns ++ flat_map elems_of_edge es).
   Proof.
     intros d ns es. unfold write_elements, header_events. cbn [app].
